@@ -16,6 +16,8 @@ import Mathlib.Tactic.Ring
 import Mathlib.Tactic.Linarith
 import Mathlib.Data.Real.Basic
 import Mathlib.Algebra.BigOperators.Group.List.Basic
+import Mathlib.Algebra.Order.BigOperators.Group.List
+import Mathlib.Tactic.Positivity
 
 namespace Scico.ProxCalc
 open Scico Scico.FuncEval
